@@ -234,6 +234,9 @@ def _guard_class(body, g):
 
 def rule_r7(facts, col):
     """refcount ceiling before a window is handed to a caller"""
+    cg = CallGraph(facts)
+    locking = c04.locking_fns(facts, cg)
+    live_wr = c04.liveness_wrappers(facts, cg, locking)
     for body in facts.bodies:
         if body.self_adt not in ("stream::ReadStream", "stream::WriteStream") or body.kind == "closure":
             continue
@@ -247,9 +250,31 @@ def rule_r7(facts, col):
                 continue
             ok = False
             for edge, fact in edge_facts(body):
-                if fact[0] in ("Lt", "Le", "Gt", "Ge") and (c04.is_liveness_expr(fact[1], set()) or c04.is_liveness_expr(fact[2], set())):
+                if fact[0] in ("Lt", "Le", "Gt", "Ge") and (c04.is_liveness_expr(fact[1], live_wr) or c04.is_liveness_expr(fact[2], live_wr)):
                     if must_pass_edge(body, bb, edge):
                         ok = True
+            if not ok:
+                # ceiling test delegated to a helper:  check(count)?  whose Ok edge dominates the hand-out and which
+                # compares that parameter and returns Err on one side
+                from .c17 import ok_edge_of_result
+                for cb, ct in body.calls():
+                    qs = [q for q in Body.callee_qs(ct) if q in facts.by_q]
+                    if not qs:
+                        continue
+                    pidx = [i + 1 for i, a in enumerate(ct["args"]) if c04.is_liveness_expr(body.operand_expr(a), live_wr)]
+                    if not pidx:
+                        continue
+                    sw, okt = ok_edge_of_result(body, cb)
+                    if okt is None or not must_pass_edge(body, bb, (sw, okt)):
+                        continue
+                    helper = facts.by_q[qs[0]][0]
+                    for e2, f2 in edge_facts(helper):
+                        if f2[0] in ("Lt", "Le", "Gt", "Ge"):
+                            ps = [peel(f2[1], through_try=False), peel(f2[2], through_try=False)]
+                            if any(x.k == "param" and x.idx in pidx for x in ps):
+                                errs = [1 for rb, si, r in assigns_to_return(helper) if r.k == "agg" and r.variant == "Err"]
+                                if errs:
+                                    ok = True
             if ok:
                 col.ok("C03.R7", key, body.where(bb), "window handed out only behind a strong_count ceiling test")
             else:
